@@ -20,13 +20,31 @@ def unesc(s):
     return "".join(out)
 
 
-def model_eval(sexprs, fuel=FUEL):
-    """-> list of (source, outcome, stdout) from the Lean model"""
+def _model_lines(sexprs, fuel):
     lines = []
     for s in sexprs:
         lines.append("mini\tsrc\t" + s)
         lines.append(f"mini\trun\t{fuel}\t" + s)
-    ans = vlib.run_model(lines)
+    return lines
+
+
+def _model_chunk(sexprs, fuel, timeout):
+    """answers for a chunk; a program on which the model itself does not finish in time is
+    answered ("", "timeout", "") — found by bisection"""
+    try:
+        return vlib.run_model(_model_lines(sexprs, fuel), timeout=timeout)
+    except RuntimeError:
+        if len(sexprs) == 1:
+            return ["ok ", "ok timeout | "]
+        h = len(sexprs) // 2
+        return _model_chunk(sexprs[:h], fuel, timeout) + _model_chunk(sexprs[h:], fuel, timeout)
+
+
+def model_eval(sexprs, fuel=FUEL):
+    """-> list of (source, outcome, stdout) from the Lean model"""
+    ans = []
+    for i in range(0, len(sexprs), 100):
+        ans += _model_chunk(sexprs[i:i + 100], fuel, 40)
     out = []
     for i in range(0, len(ans), 2):
         a, b = ans[i], ans[i + 1]
